@@ -40,6 +40,15 @@ def monitor(run):
     r = run.r
     tps = r['tps']
     w = run.w
+    # "with enough memory": without overcommit a container can only fail because one of its operators demands more
+    # than the container was given (the pool cannot be short: allocations never exceed its capacity)
+    if not r['over']:
+        for t, d in enumerate(run.ticks):
+            for x in d['results']:
+                if x['err'] and not any(F(m) > F(x['ram']) for o in x['ops'] for m in run.used.get((o, x['cpu']), [])):
+                    yield (f'tick {t}: container {x["cid"]} (operators {x["ops"]}, {x["cpu"]} CPUs, {x["ram"]} GB) failed '
+                           f'although none of its operators ever demands more than {x["ram"]} GB and the pool is not overcommitted')
+                    break
     arrival = {}
     for t, d in enumerate(run.ticks):
         for k in d['new']:
